@@ -253,7 +253,22 @@ func (a *layoutAudit) report(c *Ctx, build, metaFn *ssa.Function) {
 	case len(a.padWidths) == 0:
 		c.undecided("LAYOUT", "keyword field width 12", pos, "no K - len(keyword) padding (or %-Ks) found")
 	default:
-		c.check(has(a.padWidths, 12), "LAYOUT", "keyword field width 12", pos, "keywords are padded to 12 columns", fmt.Sprintf("keywords are padded to %v columns; GenBank's keyword field is 12", a.padWidths))
+		// a pad width is evidence against the layout only when it is a near miss of 12 (10, 11, 13, 14): any
+		// other "K - len(x)" in the writer pads something else (a sub-keyword column, a template helper)
+		near := false
+		for _, w := range a.padWidths {
+			if w != 12 && w >= 10 && w <= 14 {
+				near = true
+			}
+		}
+		switch {
+		case has(a.padWidths, 12) && !near:
+			c.ok("LAYOUT", "keyword field width 12", pos, "keywords are padded to 12 columns")
+		case near:
+			c.bad("LAYOUT", "keyword field width 12", pos, fmt.Sprintf("keywords are padded to %v columns; GenBank's keyword field is 12", a.padWidths))
+		default:
+			c.undecided("LAYOUT", "keyword field width 12", pos, fmt.Sprintf("pad widths found: %v, none is the keyword field's 12 or a near miss of it", a.padWidths))
+		}
 	}
 	// continuation indent: a constant run of spaces of the metadata helper; must equal 12
 	if metaFn != nil {
